@@ -94,6 +94,9 @@ func (p *parser) parse(filename string, src io.Reader) (*syntax.File, error) {
 	}
 
 	file := lexer.file
+	if file == nil {
+		return nil, fmt.Errorf("%v: parse failed", filename)
+	}
 	file.Path = filename
 	return file, nil
 }
